@@ -32,7 +32,7 @@ import (
 	kit "verifkit"
 )
 
-const c11Rule = "session machine: add-path send (N=3) eBGP/RS-client/iBGP/RR-client session, 3 prefixes, Loc-RIB history of up to 40/80 steps drawing BGP paths from a pool of 3-6 paths in which some pairs differ only in OTC, unknown attributes, AGGREGATOR or ATOMIC_AGGREGATE; manager machine: add/release histories over 6 paths (two pairs hash-equal), identifier limit 3..6 or 2^32-1, `last` started near wrap-around. Non-trivial: an identifier held by >=2 (prefix, path) users is released more than once, or two paths differing only in attributes outside the old hash are advertised for one prefix."
+const c11Rule = "session machine: add-path send (N=3) eBGP/RS-client/iBGP/RR-client session, 3 prefixes, Loc-RIB history of up to 40/80 steps (with 0-2 export policy replacements) drawing BGP paths from a pool of 3-6 paths in which some pairs differ only in OTC, unknown attributes, AGGREGATOR or ATOMIC_AGGREGATE; manager machine: add/release histories over 6 paths (two pairs hash-equal), identifier limit 3..6 or 2^32-1, `last` started near wrap-around. Non-trivial: an identifier held by >=2 (prefix, path) users is released more than once, or two paths differing only in attributes outside the old hash are advertised for one prefix."
 
 // c11Pool draws the path pool: base paths from different neighbours plus
 // variants of a base that differ only in one attribute outside the
@@ -119,12 +119,35 @@ func c11Run(t *rapid.T, c *kit.Case, rec *kit.Recorder, maxSteps int) {
 	}
 	releases := map[uint32]int{} // identifier -> withdrawals seen
 	seenEvents := 0
+	// export policy replacements (configuration reload on the running session) at up to two steps: paths whose
+	// advertised form changes are re-announced, the others keep their identifiers
+	replaceAt := map[int]dxPolicy{}
+	for k, n := 0, rapid.SampledFrom([]int{0, 0, 1, 2}).Draw(t, "nreplace"); k < n; k++ {
+		replaceAt[rapid.IntRange(1, steps).Draw(t, "replace_at")] = dxGenPolicy(t, fmt.Sprintf("pol_r%d", k), len(pfxs), s)
+	}
 	for step := 1; step <= steps; step++ {
-		for _, op := range h.next() {
-			what := op.String(bits)
+		ops := h.next()
+		if np, ok := replaceAt[step]; ok {
+			ops = append(ops, dxOp{Pfx: -1})
+			_ = np
+		}
+		for _, op := range ops {
+			what := "replace export policy"
+			if op.Pfx >= 0 {
+				what = op.String(bits)
+			} else {
+				what += fmt.Sprintf(" by %v", replaceAt[step])
+				c.Class("export_policy_replaced")
+			}
 			c.Logf("%d %s", step, what)
 			var cm string
 			msg := dxGuard(func() {
+				if op.Pfx < 0 {
+					rig.aro.ReplaceFilterChain(replaceAt[step].chain(pfxs))
+					rig.pol = replaceAt[step]
+					cm = rig.check()
+					return
+				}
 				before, _ := rig.selected(op.Pfx)
 				if op.Add {
 					rig.add(op.Pfx, op.Attrs)
